@@ -11,10 +11,21 @@
     the C08 invariant [dinv], a successful delete through a cursor on a non-OPT record removes exactly that record (the reading
     afterwards is the old one without it), leaves the cursor without an offset, keeps [dinv] - so the section's offset is where
     its first remaining record starts and an emptied section is absent (C11_section_offsets) - and a second delete through that
-    cursor reports a void record and changes nothing (C11_second_delete_void). *)
+    cursor reports a void record and changes nothing (C11_second_delete_void).  The other two transitions of the machine are
+    proved for the concrete cursor code too (Proofs/WalkInv.v): a cursor without an offset - fresh, or after a deletion - restarts
+    at the first record of its section with the section's current count, or ends when the section is empty
+    (C11_cursor_restarts_from_section_start); a cursor on a record moves to the record that follows with one record less to go,
+    or ends after the last one (C11_cursor_advances).  Composed (C11_concrete_walk_refines_machine): on any state satisfying [dinv],
+    the loop "next; if the hook's decision says so, delete" of the concrete cursor code over a record section, from any position
+    the machine can be in, returns what the abstract machine returns on the records of that section (compared without their
+    positions), leaves the other sections as they were and keeps [dinv]; hence (C11_concrete_walk_exact) from a fresh cursor it
+    terminates within (|D|+1)(n+1) calls of next with exactly the survivors in their order, every survivor yielded, nothing yielded
+    that was not in the section - for every decision that depends only on the record under the cursor and never chooses the OPT
+    record; such decisions exist (C11_delete_everything_but_opt).  What is still decided by the correspondence only: the variant of
+    next() that skips the OPT record, walks that start on a compressed object (the first delete decompresses), the question. *)
 From Coq Require Import List Arith Bool.
 From DV Require Import Model.Base Model.Parser Model.Header Model.Readers Model.Mutate Spec.NameSpec Spec.PacketSpec Spec.RecordSpec Spec.PlainSpec
-  Proofs.Hoare Proofs.WalkSkip Proofs.PlainWf Proofs.InsertSpec Proofs.DeleteInv Proofs.Totality Proofs.DeleteWalk.
+  Proofs.Hoare Proofs.WalkSkip Proofs.PlainWf Proofs.InsertSpec Proofs.DeleteInv Proofs.Totality Proofs.WalkInv Proofs.DeleteWalk.
 Import ListNotations.
 
 Theorem C11_walk_terminates : forall (A : Type) (D : A -> bool) (l : list A),
@@ -73,3 +84,91 @@ Theorem C11_delete_succeeds : forall v it qls qt lA lN lR r x,
   exists s', m_delete (v, it) = (s', Ok tt).
 Proof. exact delete_total. Qed.
 Print Assumptions C11_delete_succeeds.
+
+Theorem C11_cursor_restarts_from_section_start : forall v it qls qt lA lN lR sec, dinv v -> reading (pp_packet v) qls qt lA lN lR ->
+  it_offset it = None -> it_section it = sec -> sec = SAnswer \/ sec = SNameServers \/ sec = SAdditional ->
+  r_next_including_opt v it = Ok (match sec_list sec lA lN lR with [] => None | rx :: l' => Some (cur_on sec (fst rx) (length l')) end).
+Proof. exact next_restart. Qed.
+Print Assumptions C11_cursor_restarts_from_section_start.
+
+Theorem C11_cursor_advances : forall v qls qt lA lN lR sec l1 rx l2, dinv v -> reading (pp_packet v) qls qt lA lN lR ->
+  sec = SAnswer \/ sec = SNameServers \/ sec = SAdditional -> sec_list sec lA lN lR = l1 ++ rx :: l2 ->
+  r_next_including_opt v (cur_on sec (fst rx) (length l2)) =
+  Ok (match l2 with [] => None | rx2 :: l3 => Some (cur_on sec (fst rx2) (length l3)) end).
+Proof. exact next_advance. Qed.
+Print Assumptions C11_cursor_advances.
+
+Example C11_cursor_vocabulary :
+  (forall sec lA lN lR, sec_list sec lA lN lR = match sec with SAnswer => lA | SNameServers => lN | _ => lR end) /\
+  (forall sec r left, cur_on sec r left =
+     {| it_section := sec; it_offset := Some (rv_off r); it_offset_next := rv_name_end r + 10 + rv_rdlen r; it_name_end := rv_name_end r;
+        it_rrs_left := BinNat.N.of_nat left |}).
+Proof. split; reflexivity. Qed.
+
+(** the concrete loop: [dec] is what the hook decides from the object and the cursor, [D] the same decision on the record under the
+    cursor without its position ([unpl]); [cs] the cursors yielded, [ys] the records the machine yields *)
+Theorem C11_concrete_walk_refines_machine : forall sec, sec = SAnswer \/ sec = SNameServers \/ sec = SAdditional ->
+  forall (D : rec_view * rd_view -> bool) (dec : ppacket -> rrit -> bool),
+  (forall y, D y = true -> is_opt (fst y) = false) ->
+  (forall v qls qt lA lN lR rxp n, reading (pp_packet v) qls qt lA lN lR -> In rxp (sec_list sec lA lN lR) ->
+     dec v (cur_on sec (fst rxp) n) = D (unpl rxp)) ->
+  forall fuel v it qls qt lA lN lR i cs ys,
+    dinv v -> reading (pp_packet v) qls qt lA lN lR -> Cur sec it (sec_list sec lA lN lR) i -> Forall2 (yielded sec) cs ys ->
+    match awalk D fuel (map unpl (sec_list sec lA lN lR)) i ys with
+    | None => cwalk dec fuel v it cs = None
+    | Some (l', ys') =>
+      exists v' cs' lA' lN' lR', cwalk dec fuel v it cs = Some (v', cs') /\ dinv v' /\ reading (pp_packet v') qls qt lA' lN' lR' /\
+        map unpl (sec_list sec lA' lN' lR') = l' /\ other_sections_kept sec lA lN lR lA' lN' lR' /\ Forall2 (yielded sec) cs' ys'
+    end.
+Proof. exact walk_refines. Qed.
+Print Assumptions C11_concrete_walk_refines_machine.
+
+Theorem C11_concrete_walk_exact : forall sec, sec = SAnswer \/ sec = SNameServers \/ sec = SAdditional ->
+  forall (D : rec_view * rd_view -> bool) (dec : ppacket -> rrit -> bool),
+  (forall y, D y = true -> is_opt (fst y) = false) ->
+  (forall v qls qt lA lN lR rxp n, reading (pp_packet v) qls qt lA lN lR -> In rxp (sec_list sec lA lN lR) ->
+     dec v (cur_on sec (fst rxp) n) = D (unpl rxp)) ->
+  forall v it qls qt lA lN lR,
+    dinv v -> reading (pp_packet v) qls qt lA lN lR -> it_offset it = None -> it_section it = sec ->
+    let l := map unpl (sec_list sec lA lN lR) in
+    exists v' cs lA' lN' lR' ys,
+      cwalk dec ((ndel D l + 1) * (length l + 1)) v it [] = Some (v', cs) /\ dinv v' /\ reading (pp_packet v') qls qt lA' lN' lR' /\
+      map unpl (sec_list sec lA' lN' lR') = filter (keep D) l /\ other_sections_kept sec lA lN lR lA' lN' lR' /\
+      Forall2 (yielded sec) cs ys /\ (forall y, In y (filter (keep D) l) -> In y ys) /\ (forall y, In y ys -> In y l).
+Proof. exact walk_deletes_exactly. Qed.
+Print Assumptions C11_concrete_walk_exact.
+
+Theorem C11_delete_everything_but_opt : forall sec v it qls qt lA lN lR,
+  sec = SAnswer \/ sec = SNameServers \/ sec = SAdditional ->
+  dinv v -> reading (pp_packet v) qls qt lA lN lR -> it_offset it = None -> it_section it = sec ->
+  let l := map unpl (sec_list sec lA lN lR) in
+  exists v' cs lA' lN' lR',
+    cwalk dec_nonopt ((ndel D_nonopt_all l + 1) * (length l + 1)) v it [] = Some (v', cs) /\ dinv v' /\
+    reading (pp_packet v') qls qt lA' lN' lR' /\
+    map unpl (sec_list sec lA' lN' lR') = filter (fun y => is_opt (fst y)) l /\ other_sections_kept sec lA lN lR lA' lN' lR'.
+Proof. exact walk_delete_all. Qed.
+Print Assumptions C11_delete_everything_but_opt.
+
+Example C11_concrete_walk_vocabulary :
+  (forall dec f v it cs, cwalk dec (S f) v it cs =
+     match r_next_including_opt v it with
+     | Ok None => Some (v, cs)
+     | Ok (Some cur) => if dec v cur
+                        then match m_delete (v, cur) with ((v', cur'), Ok _) => cwalk dec f v' cur' (cs ++ [cur]) | _ => None end
+                        else cwalk dec f v cur (cs ++ [cur])
+     | _ => None
+     end) /\
+  (forall rx, unpl rx = (rv_at (fst rx) (snd rx) 0, snd rx)) /\
+  (forall sec it lc i, Cur sec it lc i <->
+     (i = 0 /\ it_offset it = None /\ it_section it = sec) \/
+     (exists l1 rxp l2, lc = l1 ++ rxp :: l2 /\ i = S (length l1) /\ it = cur_on sec (fst rxp) (length l2))) /\
+  (forall sec c y, yielded sec c y <-> exists rxp n, c = cur_on sec (fst rxp) n /\ unpl rxp = y) /\
+  (forall sec lA lN lR lA' lN' lR', other_sections_kept sec lA lN lR lA' lN' lR' <->
+     forall s2, s2 <> sec -> s2 = SAnswer \/ s2 = SNameServers \/ s2 = SAdditional ->
+       map unpl (sec_list s2 lA' lN' lR') = map unpl (sec_list s2 lA lN lR)) /\
+  (forall v cur, dec_nonopt v cur = match it_rr_type v cur with Ok t => negb (BinNat.N.eqb t TYPE_OPT) | _ => false end) /\
+  (forall y, D_nonopt_all y = negb (is_opt (fst y))).
+Proof.
+  split; [reflexivity|]. split; [reflexivity|]. split; [intros; unfold Cur; tauto|]. split; [intros; unfold yielded; tauto|].
+  split; [intros; unfold other_sections_kept; tauto|]. split; reflexivity.
+Qed.
